@@ -125,6 +125,7 @@ def build(cfg, log):
     vt.reset_registry()
     samplers = make_samplers(cfg["samplers"])
     n = len(samplers) + (0 if any(type(s) is HaltonSampler for s in samplers) else 1)
+    _virtualise_class_level_queues(MABCalibrationEnv)
     env = MABCalibrationEnv(n)
     agent = make_agent(cfg["agent"], n, log)
     if cfg.get("used_env") is not None and hasattr(env, "_curr_best_loss"):
@@ -135,6 +136,18 @@ def build(cfg, log):
     if len(vt.VQueue.registry) < 2:
         raise HarnessBroken("the scheduler/environment did not create virtual queues: seam defeated by a refactor")
     return sched, agent, env, samplers
+
+
+def _virtualise_class_level_queues(cls):
+    """An implementation may create its exchange queues once, as class attributes (at import time, before install() could see
+    them): give every such attribute a fresh virtual queue for this execution, so that the seam holds and nothing leaks from one
+    execution into the next. (Whether two environments alive at once may share queues is outside C10's quantifier.)"""
+    import queue as _q
+
+    for klass in cls.__mro__:
+        for name, val in list(vars(klass).items()):
+            if isinstance(val, (_q.Queue, _q.SimpleQueue, vt.VQueue)):
+                setattr(klass, name, vt.VQueue())
 
 
 def queue_sizes():
@@ -309,10 +322,14 @@ def outcome(obs):
     return (tuple(repr(s) for s in obs["samplers"]), tuple((e[1], round(e[2], 12)) for e in obs["log"] if e[0] == "learn"))
 
 
-def controlled(fn, prefix=(), mode="sync", horizon=20000, sleep_at=None):
+def controlled(fn, prefix=(), mode="sync", horizon=20000, sleep_at=None, fresh_class_queues=True):
     """Run fn() in the calling thread under a Controller (the RL scheduler's queues/threads are virtual once install()
     has run). Returns (controller, value, exception, leaked thread names)."""
     install()
+    if fresh_class_queues:   # (not when the caller has already built its environment: the scheduler holds references to its queues)
+        from black_it.schedulers.rl.envs.mab import MABCalibrationEnv
+
+        _virtualise_class_level_queues(MABCalibrationEnv)
     tracer = vt.make_line_tracer(["black_it/schedulers"]) if mode == "line" else None
     ctl = vt.Controller(prefix, horizon=horizon, sleep_at=sleep_at)
     vt.set_controller(ctl, tracer)
@@ -356,6 +373,7 @@ def run_calibrator(cfg, prefix, mode="sync", horizon=40000, sleep_at=None):
     with quiet():
         samplers = make_samplers(cfg["samplers"])
         n = len(samplers) + (0 if any(type(s) is HaltonSampler for s in samplers) else 1)
+        _virtualise_class_level_queues(MABCalibrationEnv)
         env = MABCalibrationEnv(n)
         agent = make_agent(cfg["agent"], n, log)
         sched = RLScheduler(samplers, agent=agent, env=env)
@@ -380,7 +398,7 @@ def run_calibrator(cfg, prefix, mode="sync", horizon=40000, sleep_at=None):
                 qa, qo = queue_sizes()
                 obs["sessions"].append({"q_action": qa, "q_outcome": qo, "thread_alive": bool(vt.live_threads())})
 
-    ctl, _, exc, leaked = controlled(go, prefix, mode=mode, horizon=horizon, sleep_at=sleep_at)
+    ctl, _, exc, leaked = controlled(go, prefix, mode=mode, horizon=horizon, sleep_at=sleep_at, fresh_class_queues=False)
     if exc is not None:
         if isinstance(exc, vt.Abort):
             obs["abort"] = str(exc)
